@@ -12,7 +12,7 @@ Spend(k, fld) == fuel[k][fld] > 0 /\ fuel' = [fuel EXCEPT ![k][fld] = @ - 1]
 MCStep ==
   \/ \E k \in Peers, inc \in BOOLEAN : Connect(k, inc) /\ Spend(k, "c")
   \/ \E k \in Peers : FrameStep(k) /\ Spend(k, "f")
-  \/ \E k \in Peers : (HTickKA(k) \/ \E dl \in Rates, ul \in Rates : HTickStats(k, dl, ul)) /\ Spend(k, "t")
+  \/ \E k \in Peers : (HTickKA(k) \/ \E ul \in Rates : HTickStats(k, 0, ul)) /\ Spend(k, "t")
   \/ \E k \in Peers : (HStart(k) \/ HBroadHave(k) \/ HBroadState(k) \/ \E n \in Pipeline : HReply(k, n)) /\ UNCHANGED fuel
   \/ ManagerStep /\ UNCHANGED fuel
   \/ BroadcastDrained /\ Rotation /\ UNCHANGED fuel
